@@ -130,3 +130,23 @@ def wf_general(fcp: "ref:FcpV2") -> "bool":
 def wf_dbc(fcp: "ref:FcpV2") -> "bool":
     """DBC plug-in rules: no binding to an unknown struct, no two CAN bindings with the same frame id"""
     return forall(0, len(fcp.impls), lambda i: not unknown_struct(fcp, fcp.impls[i]) and not dup_can_id(fcp, fcp.impls[i]))
+
+
+@pure
+def is_file(r: "ref:GenResult") -> "bool":
+    return (not is_none(r.get("type"))) and r.get("type") == "file"
+
+
+# ---------------------------------------------------------------- C10 vocabulary
+def plugin_results(fcp: "ref") -> "seq[ref:GenResult]":
+    """abstract: the list of result records the plug-in's generate() returns for this schema"""
+    ...
+
+
+def files_of(rs: "seq[ref:GenResult]", k: "int") -> "seq[ref]":
+    """the records of type 'file' among the first k, in order"""
+    if k <= 0:
+        return seq_empty("ref")
+    return files_of(rs, k - 1) + ([rs[k - 1]] if is_file(rs[k - 1]) else [])
+
+
